@@ -560,7 +560,100 @@ package decimal
 //@   tags safety C04,C07
 //@ func sub10VW(z, x []Word, y Word) (c Word)
 //@   same sub10VW_g
-//@   status assumed assembly
+//@   asm dec_arith_amd64.s
+//@   label U4 invariant[range] 0 <= SI && SI + 4 <= len(z) && DI == len(z) - SI - 4 && CX < B && (SI > 0 ==> CX <= 1)
+//@   label U4 invariant[words] wordsok(z[:SI])
+//@   label U4 invariant[value] V(z[:SI]) + y == old(V(x[:SI])) + CX*P(SI)
+//@   label U4 invariant[rest]  forall k in SI..len(z) :: x[k] == old(x[k])
+//@   label U4 modifies mem(z)
+//@   label U4+9 hint assert(z[SI] + CX_0 == old(x[SI]) + CX*10000000000000000000 && 0 <= z[SI] && z[SI] < B && CX <= 1)
+//@   label U4+9 hint Vdef(z, 0, SI)
+//@   label U4+9 hint Vdef(old(x), 0, SI)
+//@   label U4+9 hint Pdef(SI)
+//@   label U4+9 hint mul_eq(z[SI] + CX_0, old(x[SI]) + CX*10000000000000000000, P(SI))
+//@   label U4+9 hint mul_eq(P(SI+1), B*P(SI), CX)
+//@   label U4+9 hint assert(V(z[:SI+1]) + y == old(V(x[:SI+1])) + CX*P(SI+1))
+//@   label U4+9 hint assert(wordsok(z[:SI+1]))
+//@   label U4+9 hint bind(gc1, CX)
+//@   label U4+17 hint assert(z[SI+1] + gc1 == old(x[SI+1]) + CX*10000000000000000000 && 0 <= z[SI+1] && z[SI+1] < B && CX <= 1)
+//@   label U4+17 hint Vdef(z, 0, SI+1)
+//@   label U4+17 hint Vdef(old(x), 0, SI+1)
+//@   label U4+17 hint Pdef(SI+1)
+//@   label U4+17 hint mul_eq(z[SI+1] + gc1, old(x[SI+1]) + CX*10000000000000000000, P(SI+1))
+//@   label U4+17 hint mul_eq(P(SI+2), B*P(SI+1), CX)
+//@   label U4+17 hint assert(V(z[:SI+2]) + y == old(V(x[:SI+2])) + CX*P(SI+2))
+//@   label U4+17 hint assert(wordsok(z[:SI+2]))
+//@   label U4+17 hint bind(gc2, CX)
+//@   label U4+25 hint assert(z[SI+2] + gc2 == old(x[SI+2]) + CX*10000000000000000000 && 0 <= z[SI+2] && z[SI+2] < B && CX <= 1)
+//@   label U4+25 hint Vdef(z, 0, SI+2)
+//@   label U4+25 hint Vdef(old(x), 0, SI+2)
+//@   label U4+25 hint Pdef(SI+2)
+//@   label U4+25 hint mul_eq(z[SI+2] + gc2, old(x[SI+2]) + CX*10000000000000000000, P(SI+2))
+//@   label U4+25 hint mul_eq(P(SI+3), B*P(SI+2), CX)
+//@   label U4+25 hint assert(V(z[:SI+3]) + y == old(V(x[:SI+3])) + CX*P(SI+3))
+//@   label U4+25 hint assert(wordsok(z[:SI+3]))
+//@   label U4+25 hint bind(gc3, CX)
+//@   label U4+33 hint assert(z[SI+3] + gc3 == old(x[SI+3]) + CX*10000000000000000000 && 0 <= z[SI+3] && z[SI+3] < B && CX <= 1)
+//@   label U4+33 hint Vdef(z, 0, SI+3)
+//@   label U4+33 hint Vdef(old(x), 0, SI+3)
+//@   label U4+33 hint Pdef(SI+3)
+//@   label U4+33 hint mul_eq(z[SI+3] + gc3, old(x[SI+3]) + CX*10000000000000000000, P(SI+3))
+//@   label U4+33 hint mul_eq(P(SI+4), B*P(SI+3), CX)
+//@   label U4+33 hint assert(V(z[:SI+4]) + y == old(V(x[:SI+4])) + CX*P(SI+4))
+//@   label U4+33 hint assert(wordsok(z[:SI+4]))
+//@   label U4+33 hint forget(AX, BX, CX, V(z[:SI+4]) + y == old(V(x[:SI+4])) + CX*P(SI+4) && wordsok(z[:SI+4]) && CX <= 1 && (CF <==> CX == 1))
+//@   label U4+34 hint assert(SI == SI_0 + 4 && SI <= len(z))
+//@   label V4+0 hint forget0(AX, BX, (DI + 4) % 18446744073709551616 == len(z) - SI && 0 <= SI && SI <= len(z) && CX < B && (SI > 0 ==> CX <= 1) && wordsok(z[:SI]) && V(z[:SI]) + y == old(V(x[:SI])) + CX*P(SI) && (forall k in SI..len(z) :: x[k] == old(x[k])))
+//@   label C4+0 hint forget0(AX, BX, DI == len(z) - SI && CX == 0 && 1 <= SI && SI <= len(z) && wordsok(z[:SI]) && V(z[:SI]) + y == old(V(x[:SI])) + CX*P(SI) && (forall k in SI..len(z) :: x[k] == old(x[k])))
+//@   label decCpy.$entry+0 hint forget0(AX, BX, DX, SI, DI, DI == len(z) - SI && c == 0 && !samebase(z, x) && 0 <= SI && SI <= len(z) && wordsok(z[:SI]) && V(z[:SI]) + y == old(V(x[:SI])) && (forall k in SI..len(z) :: x[k] == old(x[k])))
+//@   label L4 invariant[range] 0 <= SI && SI < len(z) && DI == len(z) - SI && CX < B && (SI > 0 ==> CX <= 1)
+//@   label L4 invariant[words] wordsok(z[:SI])
+//@   label L4 invariant[value] V(z[:SI]) + y == old(V(x[:SI])) + CX*P(SI)
+//@   label L4 invariant[rest]  forall k in SI..len(z) :: x[k] == old(x[k])
+//@   label L4 modifies mem(z)
+//@   label L4+9 hint forget(AX, BX, CX, R11, z[SI] + CX_0 == old(x[SI]) + CX*10000000000000000000 && 0 <= z[SI] && z[SI] < B && CX <= 1)
+//@   label L4+10 hint assert(SI == SI_0 + 1 && SI <= len(z))
+//@   label L4+10 hint Vdef(z, 0, SI-1)
+//@   label L4+10 hint Vdef(old(x), 0, SI-1)
+//@   label L4+10 hint Pdef(SI-1)
+//@   label L4+10 hint mul_eq(z[SI-1] + CX_0, old(x[SI-1]) + CX*10000000000000000000, P(SI-1))
+//@   label L4+10 hint mul_eq(P(SI), B*P(SI-1), CX)
+//@   label L4+10 hint assert(V(z[:SI]) + y == old(V(x[:SI])) + CX*P(SI))
+//@   label L4+10 hint assert(wordsok(z[:SI]))
+//@   label decCpy.CU invariant[range] 0 <= SI && SI + 4 <= len(z) && DI == len(z) - SI - 4 && c == 0
+//@   label decCpy.CU invariant[words] wordsok(z[:SI])
+//@   label decCpy.CU invariant[value] V(z[:SI]) + y == old(V(x[:SI]))
+//@   label decCpy.CU invariant[rest]  forall k in SI..len(z) :: x[k] == old(x[k])
+//@   label decCpy.CU invariant[apart] !samebase(z, x)
+//@   label decCpy.CU modifies mem(z)
+//@   label decCpy.CU+11 hint assert(SI == SI_0 + 4 && z[SI-4] == old(x[SI-4]) && z[SI-3] == old(x[SI-3]) && z[SI-2] == old(x[SI-2]) && z[SI-1] == old(x[SI-1]))
+//@   label decCpy.CU+11 hint Vdef(z, 0, SI-1)
+//@   label decCpy.CU+11 hint Vdef(z, 0, SI-2)
+//@   label decCpy.CU+11 hint Vdef(z, 0, SI-3)
+//@   label decCpy.CU+11 hint Vdef(z, 0, SI-4)
+//@   label decCpy.CU+11 hint Vdef(old(x), 0, SI-1)
+//@   label decCpy.CU+11 hint Vdef(old(x), 0, SI-2)
+//@   label decCpy.CU+11 hint Vdef(old(x), 0, SI-3)
+//@   label decCpy.CU+11 hint Vdef(old(x), 0, SI-4)
+//@   label decCpy.CU+11 hint assert(V(z[:SI]) + y == old(V(x[:SI])))
+//@   label decCpy.CU+11 hint assert(wordsok(z[:SI]))
+//@   label decCpy.CV+0 hint forget0(AX, BX, CX, DX, (DI + 4) % 18446744073709551616 == len(z) - SI && c == 0 && !samebase(z, x) && 0 <= SI && SI <= len(z) && wordsok(z[:SI]) && V(z[:SI]) + y == old(V(x[:SI])) && (forall k in SI..len(z) :: x[k] == old(x[k])))
+//@   label decCpy.CE+0 hint forget0(AX, BX, CX, DX, SI == len(z) && c == 0 && wordsok(z) && V(z) + y == old(V(x[:len(z)])))
+//@   label decCpy.CLoop invariant[range] 0 <= SI && SI < len(z) && DI == len(z) - SI && c == 0
+//@   label decCpy.CLoop invariant[words] wordsok(z[:SI])
+//@   label decCpy.CLoop invariant[value] V(z[:SI]) + y == old(V(x[:SI]))
+//@   label decCpy.CLoop invariant[rest]  forall k in SI..len(z) :: x[k] == old(x[k])
+//@   label decCpy.CLoop invariant[apart] !samebase(z, x)
+//@   label decCpy.CLoop modifies mem(z)
+//@   label decCpy.CLoop+4 hint assert(SI == SI_0 + 1 && z[SI-1] == old(x[SI-1]))
+//@   label decCpy.CLoop+4 hint Vdef(z, 0, SI-1)
+//@   label decCpy.CLoop+4 hint Vdef(old(x), 0, SI-1)
+//@   label decCpy.CLoop+4 hint assert(V(z[:SI]) + y == old(V(x[:SI])))
+//@   label decCpy.CLoop+4 hint assert(wordsok(z[:SI]))
+//@   hint[ret] SI <= len(z) ==> V_split(z, 0, SI, len(z))
+//@   hint[ret] SI <= len(z) ==> V_split(old(x), 0, SI, len(z))
+//@   hint[ret] SI <= len(z) ==> V_eq(z, old(x), SI, len(z))
+//@   tags safety C04,C07
 //@ func shl10VU(z, x []Word, s uint) (r Word)
 //@   same shl10VU_g
 //@   status assumed assembly
